@@ -67,6 +67,8 @@ def _observe(case: dict) -> dict:
         # the other spellings of the same question: the method and the `in` operator of the location classes
         event["cos"] = P.result(lambda: [bool(a.contains(b)), bool(b in a)], [False, False])
         event["di"] = P.result(lambda: int(L.get_distance_between_locations(a, b, wrap)), 0)
+        # one location on its own (a gene in several exons, a location over the origin) is connected to its span, too
+        event["cn1"] = P.result(lambda: L.connect_locations([B.loc(case["a"])], wrap), P.DUMMY_LOC, P.loc)
         event["cn"] = P.result(lambda: L.connect_locations([B.loc(case["a"]), B.loc(case["b"])], wrap), P.DUMMY_LOC, P.loc)
         event["cn2"] = P.result(lambda: L.connect_locations([B.loc(case["b"]), B.loc(case["a"])], wrap), P.DUMMY_LOC, P.loc)
         if event["cn"]["exc"]:
@@ -245,7 +247,7 @@ def run(ctx):
     for idx, case in enumerate(cases):
         case["id"] = idx
     samples = {}
-    keys = ("ov", "co", "cos", "di", "cn", "cn2", "cnt", "ret", "rt", "br", "fw", "perms")
+    keys = ("ov", "co", "cos", "di", "cn1", "cn", "cn2", "cnt", "ret", "rt", "br", "fw", "perms")
 
     def describe(case, event):
         locs = [case[k] for k in ("a", "b") if k in case] + case.get("locs", [])
